@@ -10,7 +10,7 @@ from dataclasses import dataclass, field
 from typing import Any, Dict, List, Optional
 
 VERIF = os.path.dirname(os.path.dirname(os.path.abspath(__file__)))
-EVIDENCE_DIR = os.path.join(VERIF, "evidence")
+EVIDENCE_DIR = os.environ.get("VERIF_EVIDENCE_DIR") or os.path.join(VERIF, "evidence")   # scratch runs (seed matrix, self-test) point this elsewhere
 REPLAY_DIR = os.path.join(EVIDENCE_DIR, "replay")
 KNOWN_FILE = os.path.join(VERIF, "known_findings.txt")
 
